@@ -82,6 +82,8 @@ def gen_space(space, negative_bcoh=False):
             x[0] = 0.0
         elif r < 0.22:
             x[0] = 5e-324
+        elif r < 0.29 and len(x) > 1:
+            x[0] = min(float(10 ** rng.uniform(-12, -8.5)), x[1] / 2)   # a positive abscissa in other units (r in metres): still x > 0
         if rng.random() < 0.15 and len(x) > 3:
             # the conversions are pointwise: the abscissae need not be ascending (stacked datasets each starting at 0, descending grids)
             x = np.concatenate([x[len(x) // 2:], x[:len(x) // 2]]) if rng.random() < 0.5 else x[::-1].copy()
@@ -170,6 +172,18 @@ def evaluate_values(case):
                         fails.append(f"{X}_to_{Y}: a scalar abscissa {x1!r} gives different values than the array filled with it")
                 except Exception as ex:  # noqa: BLE001
                     fails.append(f"{X}_to_{Y}: a scalar abscissa raises {type(ex).__name__}")
+            # the conversions between Q[S-1] and F_K, and between G and G_K, are linear: data 10^14 times smaller (another unit, a weak
+            # signal) give values 10^14 times smaller, digit for digit — no constant is added and subtracted on the way
+            if (X in ("F", "FK") and Y in ("F", "FK")) or (X in ("G", "GK") and Y in ("G", "GK")):
+                cs = 2.0 ** -47
+                small, _ = conv(X, Y, x, y * cs, None, kw)
+                small = np.asarray(small, dtype=float)
+                ref_s = out * cs
+                okp = pos & np.isfinite(ref_s)
+                if okp.any() and np.abs(small - ref_s)[okp].max() > 1e-9 * np.abs(ref_s)[okp].max() + 1e-300:
+                    j = int(np.argmax(np.abs(small - ref_s) * okp))
+                    fails.append(f"{X}_to_{Y}: not linear in the data: values scaled by 2^-47 give {small[j]!r} at x={x[j]!r}, 2^-47 times the "
+                                 f"unscaled result is {ref_s[j]!r}")
             # there and back
             back, _ = conv(Y, X, x, out, None, kw)
             sc = max(1.0, float(np.abs(y).max()))
